@@ -109,6 +109,8 @@ class Sim:
         self.uspec_at_fit = None
         self.needs_fit = False
         self.prev_a_failed = False
+        self.prev_pred_fault = False
+        self.recovering = False
         self.events = []
         self.violations = []
         self.sig = []
@@ -266,6 +268,7 @@ class Sim:
                 self.needs_fit = False
                 if self.prev_a_failed:
                     self.probe("A_recovered_by_fit")
+                    self.recovering = True
                 self.prev_a_failed = False
             else:
                 self.lin = UNSPEC
@@ -287,6 +290,8 @@ class Sim:
         if fired:
             self.prev_pred_fault = True
             return
+        if res[0] == "exc" and (self.ds_spec.get(ds_id, {}).get("bad") if ds_id is not None else False):
+            self.prev_pred_fault = True
         if not isinstance(self.lin, list) or self.needs_fit or self.uspec_at_fit is None:
             ev["cmp"] = "skip"
             return
@@ -353,9 +358,12 @@ class Sim:
                 {"changepoints": cpts, "expected": must, "tie_with_bound": may, "got": got, "stat": core.FN_NAME.get(id(p["stat"])), "lower": p["stat_lower"], "upper": p["stat_upper"], "n": len(x)},
             )
             return
-        if self.prev_a_failed:
-            self.probe("compared_after_failed_call")
-            self.prev_a_failed = False
+        if self.prev_pred_fault:
+            self.probe("compared_after_failed_predict")
+            self.prev_pred_fault = False
+        if self.recovering:
+            self.probe("compared_after_recovery")
+            self.recovering = False
         if isinstance(self.lin, list) and len(self.lin) > 1:
             self.probe("compared_on_update_lineage")
         if must:
